@@ -110,7 +110,7 @@ Print Assumptions C08_revoke_effective.
    later state was minted after the logout *)
 Theorem C08_logout_effective : forall cl pol pre r hint cid post u k n tr,
   let s0 := state_after cl (init pol) pre in
-  snd (step cl s0 (EndSession r hint cid)) = ORedirect -> session_of hint cid = Some (u, k) ->
+  snd (step cl s0 (EndSession r hint cid)) = ORedirect -> session_of (policy (fst s0)) hint cid = Some (u, k) ->
   find_tok n (toks (fst (state_after cl (init pol) (pre ++ EndSession r hint cid :: post)))) = Some tr ->
   tr_client tr = k -> tr_sub tr = u -> snd s0 < n.
 Proof. exact logout_effective. Qed.
@@ -136,3 +136,32 @@ Theorem C08_unknown_revoke_200 : forall cl r g c t h,
   proper cl c = true -> foreign_to g (denotes t) (cred_id c) = false -> snd (revoke cl r g c t h) = OOk.
 Proof. exact revoke_unknown_200. Qed.
 Print Assumptions C08_unknown_revoke_200.
+
+(* the storage policy (token-exchange policy, optional interfaces, user agent session) is an
+   environment constant of a history *)
+Theorem C08_policy_constant : forall cl ops s, policy (fst (state_after cl s ops)) = policy (fst s).
+Proof. exact state_after_policy. Qed.
+Print Assumptions C08_policy_constant.
+
+(* end_session WITHOUT id_token_hint on a provider whose storage implements
+   CanTerminateSessionFromRequest and finds the end user in the request (the user agent's session
+   belongs to u): once it answered 302, every token of (u, client_id) in any later state was minted
+   after the logout - so, with C08_dead_token_refused, the session's tokens are dead at userinfo,
+   introspection and token exchange, on BOTH routers *)
+Theorem C08_logout_without_hint_effective : forall cl pol pre r cid post u n tr,
+  p_session pol = Some u ->
+  let s0 := state_after cl (init pol) pre in
+  snd (step cl s0 (EndSession r None cid)) = ORedirect ->
+  find_tok n (toks (fst (state_after cl (init pol) (pre ++ EndSession r None cid :: post)))) = Some tr ->
+  tr_client tr = cid -> tr_sub tr = u -> snd s0 < n.
+Proof. exact logout_without_hint_effective. Qed.
+Print Assumptions C08_logout_without_hint_effective.
+
+(* a logout the storage could not perform is not reported as done: where TerminateSessionFromRequest
+   fails for the session the request is about, the answer is no redirect and no token is lost
+   (both routers) *)
+Theorem C08_failed_logout_not_reported : forall cl r g hint cid g' x u c,
+  endsession cl r g hint cid = (g', x) -> session_of (policy g) hint cid = Some (u, c) ->
+  logout_fails (policy g) c = true -> x <> ORedirect /\ g' = g.
+Proof. exact failed_logout_not_reported. Qed.
+Print Assumptions C08_failed_logout_not_reported.
